@@ -87,6 +87,15 @@ func (fr *Frame) callFunction(fv *FnVal, args []Val, resT types.Type, st *State,
 		if !rec && fr.depth < maxInlineDepth {
 			c.inlineStack = append(c.inlineStack, callee)
 			sub := c.newFrame(callee, fr, fv)
+			if ct != nil && ct.Iterator {
+				for _, a := range args {
+					if a.Fn != nil {
+						if act := c.eng.contractOf(a.Fn.Fn); act != nil && len(act.clauses("iterinv")) > 0 {
+							sub.iterFv = a.Fn
+						}
+					}
+				}
+			}
 			out, rs, rr := sub.execBody(st, reach, args)
 			c.inlineStack = c.inlineStack[:len(c.inlineStack)-1]
 			// continue in the caller with the callee's exit state
@@ -110,6 +119,7 @@ func (fr *Frame) callWithContract(callee *ssa.Function, ct *Contract, fv *FnVal,
 	c := fr.c
 	c.contractsUsed[shortFn(callee)] = true
 	env := c.calleeEnv(callee, fv, args, st)
+	env.parentEntry = fr.parentEntryOf(callee)
 	for _, cl := range ct.clauses("requires") {
 		for _, cj := range conjuncts(cl.Expr) {
 			t, err := env.evalBool(cj)
@@ -138,6 +148,7 @@ func (fr *Frame) callWithContract(callee *ssa.Function, ct *Contract, fv *FnVal,
 	env2 := c.calleeEnv(callee, fv, args, st)
 	env2.old = old
 	env2.results = results
+	env2.parentEntry = env.parentEntry
 	for _, cl := range ct.clauses("ensures") {
 		t, err := env2.evalBool(cl.Expr)
 		if err != nil {
